@@ -34,7 +34,11 @@ Inductive expr :=
 | EPanic                                       (* a call whose Go body panics (the check registers such a
                                                   built-in): TryStatement's guard turns the panic into a
                                                   catchable internal error *)
-with args := ANil | ACons (e : expr) (r : args).
+| EMatch (s : expr) (m : marms)                (* match (s) { c1, c2 => e, ..., default => d } *)
+with args := ANil | ACons (e : expr) (r : args)
+(* the arms in source order; the `default` arm is kept last (the parser stores it apart and a match
+   has no fall-through, so its position is not observable); MNil = no default *)
+with marms := MNil | MDefault (e : expr) | MCons (c : args) (e : expr) (r : marms).
 
 (* statements; blocks are SSeq/SSkip trees *)
 Inductive stmt :=
